@@ -32,6 +32,11 @@ TOL = 1e-9
 TAGS = {0: None, 1: "ExtraParamsError", 2: "ValueError", 3: "KeyError", 4: "AttributeError", 5: "-inf"}
 HPV_SIG = {"class": "HPVUnilateral", "call": "set_params"}
 LEAK_SIG = {"call": "set_named_params", "named_params": "side-global name reaches a symmetric group"}
+# Midline without mixing reports noext_contra_* / ext_contra_* parameters; a declared name that skips a level
+# (contra_<kind>, noext_<kind>, ext_<kind>, contra_<arc>_<kind> ...) matches them by the library's in-order matching and is
+# accepted by the named_params setter, but Midline.set_params routes only ipsi_ / noext_contra_ / ext_contra_ prefixes:
+# the value arrives nowhere (model side: C17_midline_names_consistent_needed_refuted)
+IGNORED_SIG = {"class": "Midline", "call": "set_named_params", "named_params": "level-skipping side name is ignored by set_params"}
 SIDES = ("ipsi", "contra")
 
 
@@ -490,7 +495,7 @@ def relations(case):
                     continue     # equally specific names with different values: "most specific" is not defined
                 if not close(after[p], assigned[best[0]]):
                     bad = ("a declared name's value did not arrive at a parameter it addresses (most specific name wins)",
-                           p, assigned[best[0]])
+                           p, assigned[best[0]], best[0])
                     break
             if bad:
                 d2 = dict(det, parameter=bad[1], expected=bad[2], actual=after[bad[1]], assigned=assigned)
@@ -500,6 +505,11 @@ def relations(case):
                 elif side_global and bad[0].startswith("a parameter that no declared name addresses") \
                         and cls in ("Bilateral", "Midline"):
                     leaks.append((dict(LEAK_SIG, **{"class": cls}), d2))
+                elif (cls == "Midline" and len(bad) == 4 and bad[3].split("_")[0] in ("contra", "noext", "ext")
+                      and bad[3] not in params and case["cfg"].get("use_mixing") is False
+                      and not (bad[3].startswith("noext_contra_") or bad[3].startswith("ext_contra_"))
+                      and all(close(after[q], before[q]) for q in params if matches(bad[3], q))):
+                    leaks.append((dict(IGNORED_SIG), dict(d2, ignored_name=bad[3])))
                 else:
                     odd.append(d2)
             # get after set
@@ -976,6 +986,7 @@ def run(ctx: Ctx, a_ok: bool):
     leak_known = any(k["status"] == "known" and sig_matches(k["signature"], dict(LEAK_SIG, **{"class": "Bilateral"}))
                      for k in ctx.known)
     leak_reported = False
+    ignored_reported = False
     for c in cases:
         try:
             fs, leaks = relations(c)
@@ -984,9 +995,14 @@ def run(ctx: Ctx, a_ok: bool):
                            "relation": "evaluating the relation raised " + impl.err_enum(e),
                            **(HPV_SIG if c["cls"] == "HPVUnilateral" else {})}, {"error": repr(e)[:300]})], []
         nleak += len(leaks)
-        if leaks and leak_known and not leak_reported:
-            leak_reported = True
-            report_rel(ctx, c, leaks[0][0], leaks[0][1], which=1)
+        for lsig, ldet in leaks:
+            if lsig.get("named_params") == IGNORED_SIG["named_params"]:
+                if not ignored_reported:            # known finding (or, if it is not listed, a violation): once per run
+                    ignored_reported = True
+                    report_rel(ctx, c, lsig, ldet, which=1)
+            elif leak_known and not leak_reported:
+                leak_reported = True
+                report_rel(ctx, c, lsig, ldet, which=1)
         for sig, detail in fs:
             nrel += 1
             key = json.dumps({k: v for k, v in sig.items() if k != "named_params"}, sort_keys=True)
